@@ -13,6 +13,8 @@ import (
 	"errors"
 	"fmt"
 	"io"
+	"math"
+	"math/big"
 	"net"
 	"net/netip"
 	"os"
@@ -522,6 +524,16 @@ func main() {
 		if err != nil {
 			harness.Fatal("%v", err)
 		}
+		if r["kind"] == "window" {
+			now, _ := strconv.ParseInt(fmt.Sprint(r["now"]), 10, 64)
+			ts, _ := strconv.ParseUint(fmt.Sprint(r["ts"]), 10, 64)
+			if got, want := windowVerdict(ts, now); got != want {
+				fmt.Printf("VIOLATION property=C03 replay=%s\n  server second %d timestamp %d accepted=%v want %v\n", c.Replay, now, ts, got, want)
+				os.Exit(1)
+			}
+			fmt.Println("no violation on replay")
+			os.Exit(0)
+		}
 		if r["kind"] == "history" {
 			var hv histViol
 			b, _ := json.Marshal(r["history"])
@@ -592,6 +604,7 @@ func main() {
 		c.Part("histories-"+ps.name, map[string]any{"depth": ps.depth, "alphabet_size": len(alphabet()), "alphabet": fmt.Sprint(alphabet()), "phases": phases, "histories": hist, "handshakes_presented": trans})
 		useNarrow, useHeld = false, false
 	}
+	windowPass(c)
 	c.Sample(map[string]any{"history": "phase=.500000000 New(skew+30s) Adv(1m0s) New(skew+0s) Present(r[-2])", "meaning": "accept with client 30 s ahead, wait 60 s, a fresh handshake prunes the pool, replay the first"})
 	// concurrent part
 	params := []string{"2", "3", "2+fresh"}
@@ -606,3 +619,61 @@ func main() {
 }
 
 func netipAddrPort() netip.AddrPort { return netip.MustParseAddrPort("127.0.0.1:80") }
+
+// windowEdges are the 64-bit values around which a timestamp comparison can go
+// wrong: zero, the 30 s window, the 32- and 63/64-bit wrap points.
+var windowEdges = []int64{0, 1, 29, 30, 31, 32, 60, 1 << 31, 1 << 32, 1 << 62, math.MaxInt64 - 31, math.MaxInt64 - 30, math.MaxInt64 - 1, math.MaxInt64,
+	-1, -29, -30, -31, -32, -60, -(1 << 31), -(1 << 32), -(1 << 62), math.MinInt64 + 31, math.MinInt64 + 30, math.MinInt64 + 1, math.MinInt64}
+
+// windowVerdict runs the real ValidateUnixEpochTimestamp on (ts, now) and
+// returns what it said and what the statement says (|ts-now| <= 30 in exact
+// arithmetic: a timestamp is a 64-bit number of seconds, the distance is not).
+func windowVerdict(ts uint64, now int64) (got, want bool) {
+	var b [8]byte
+	binary.BigEndian.PutUint64(b[:], ts)
+	got = ss2022.ValidateUnixEpochTimestamp(b[:], time.Unix(now, 0)) == nil
+	d := new(big.Int).Sub(big.NewInt(int64(ts)), big.NewInt(now))
+	want = d.CmpAbs(big.NewInt(30)) <= 0
+	return
+}
+
+// windowPass: every (server second, header timestamp) pair from the edge grid
+// - server seconds at each edge up to +-2^62, timestamps at server second + edge (wrapping,
+// as the 8 header bytes do) and at each edge itself.
+func windowPass(c *harness.Check) {
+	var cases, accepted int64
+	seen := map[[2]uint64]bool{}
+	for _, now := range windowEdges {
+		if now > 1<<62 || now < -(1<<62) {
+			continue // a server clock within 31 s of +-2^63 s is not an input (year 292 billion); there the 8-byte timestamp itself wraps
+		}
+		var tss []uint64
+		for _, e := range windowEdges {
+			tss = append(tss, uint64(now)+uint64(e), uint64(e))
+		}
+		for _, ts := range tss {
+			k := [2]uint64{uint64(now), ts}
+			if seen[k] {
+				continue
+			}
+			seen[k] = true
+			cases++
+			got, want := windowVerdict(ts, now)
+			if got {
+				accepted++
+			}
+			c.Distinct(fmt.Sprint("window", now, ts), true)
+			if got != want {
+				sig := "window/timestamp-outside-30s-accepted"
+				if want {
+					sig = "window/timestamp-within-30s-refused"
+				}
+				c.Violation(sig, fmt.Sprintf("server second %d, header timestamp %d (as int64 %d): accepted=%v, the statement says %v", now, ts, int64(ts), got, want),
+					map[string]any{"kind": "window", "now": strconv.FormatInt(now, 10), "ts": strconv.FormatUint(ts, 10)})
+			}
+		}
+	}
+	c.Count(cases, cases, cases)
+	c.Part("timestamp-window", map[string]any{"edges": len(windowEdges), "pairs": cases, "accepted": accepted,
+		"oracle": "accepted iff |timestamp - server second| <= 30 computed without overflow; real ss2022.ValidateUnixEpochTimestamp on every pair"})
+}
